@@ -302,6 +302,10 @@ func check(argv []string) int {
 		Output string `json:"solver_output,omitempty"`
 		Why    string `json:"why"`
 		Script string `json:"script,omitempty"`
+		// replay against the real code (interpreter case contracts): the failing input, how it was run
+		FailingInput json.RawMessage `json:"failing_input,omitempty"`
+		ReplayCmd    string          `json:"replay_cmd,omitempty"`
+		ReplayLog    string          `json:"replay_log,omitempty"`
 	}
 	var viols []violation
 	var knownHit []Finding
@@ -446,15 +450,39 @@ func check(argv []string) int {
 	for _, f := range knownHit {
 		fmt.Printf("KNOWN-FINDING: property=%s %s %s\n", *prop, f.Obligation, f.What)
 	}
+	// replay: failed case contracts of the interpreter main loop are run on the real code over
+	// boundary-value inputs (engine/replay.go); the first input that violates the contract at run time
+	// is attached to the violation
+	caseRe := regexp.MustCompile(`callNativeFunc#([^/]+)/`)
+	var failedCases []string
+	seenCase := map[string]bool{}
 	for _, v := range viols {
+		if m := caseRe.FindStringSubmatch(v.Obl); m != nil && !seenCase[m[1]] {
+			seenCase[m[1]] = true
+			failedCases = append(failedCases, m[1])
+		}
+	}
+	replayed := map[string]string{}
+	replayLog := ""
+	if len(failedCases) > 0 && len(failedCases) <= 40 {
+		replayed, replayLog = engine.ReplayInterpreterCases(w, failedCases, tmpdir)
+	}
+	for _, v := range viols {
+		if m := caseRe.FindStringSubmatch(v.Obl); m != nil {
+			if in, ok := replayed[m[1]]; ok {
+				v.FailingInput = json.RawMessage(in)
+				v.ReplayCmd = "go test -tags verif -overlay <contract files + executable prelude + verif_replay_test.go> -run TestVerifReplay ./internal/engine/interpreter/ (in /repo; regenerated by: scripts/check.sh " + *prop + " quick)"
+			} else {
+				v.ReplayLog = trunc(replayLog, 1500)
+			}
+		}
 		rp := filepath.Join(*verif, "evidence", "replay", *prop+"_"+sanitize(v.Obl)+".json")
 		os.MkdirAll(filepath.Dir(rp), 0o755)
 		data, _ := json.MarshalIndent(v, "", " ")
 		os.WriteFile(rp, data, 0o644)
-		suffix := ""
-		if v.Status != "sat" || true {
-			// models are not yet replayed against the real code automatically
-			suffix = " no-failing-input-found"
+		suffix := " no-failing-input-found"
+		if len(v.FailingInput) > 0 {
+			suffix = "" // the replay file carries an input that violates the contract on the real code
 		}
 		fmt.Printf("VIOLATION property=%s replay=%s obligation=%s%s\n", *prop, rp, v.Obl, suffix)
 		fmt.Printf("  %s %s: %s [%s]\n", v.Pos, v.Kind, v.Text, v.Status)
